@@ -20,7 +20,7 @@ Lemma doc_id_patch fs : doc_id (patch (VDoc fs)) = option_map patch (assoc "_id"
 Proof. rewrite patch_doc. simpl. apply assoc_map_patch. Qed.
 
 Definition ins_id (c : coll) (fs : list (string * value)) : value :=
-  match assoc "_id" fs with Some i => i | None => VOid (next_oid c) end.
+  match assoc "_id" fs with Some i => patch i | None => VOid (next_oid c) end.
 Definition ins_data (c : coll) (fs : list (string * value)) : value :=
   patch (VDoc (match assoc "_id" fs with
                | Some _ => fs
@@ -31,9 +31,12 @@ Lemma ins_data_id c fs : doc_id (ins_data c fs) = Some (patch (ins_id c fs)).
 Proof.
   unfold ins_data, ins_id. rewrite doc_id_patch.
   destruct (assoc "_id" fs) as [i|] eqn:E.
-  - rewrite E. reflexivity.
+  - rewrite E. simpl. rewrite patch_idem. reflexivity.
   - rewrite assoc_app_none by exact E. reflexivity.
 Qed.
+
+Lemma ins_id_patch c fs : patch (ins_id c fs) = ins_id c fs.
+Proof. unfold ins_id. destruct (assoc "_id" fs); [apply patch_idem|reflexivity]. Qed.
 
 Lemma store_del_one id data :
   store_del id [(id, data)] = if py_eq id id then [] else [(id, data)].
@@ -56,9 +59,9 @@ Lemma insert_doc_spec c fs c' r :
 Proof.
   intros Hn. unfold insert_doc, ins_id, ins_data.
   destruct (assoc "_id" fs) as [i|] eqn:Ea; cbv beta iota zeta.
-  - destruct (id_modelled i) eqn:Em; cbn [negb].
+  - destruct (id_modelled (patch i)) eqn:Em; cbn [negb].
     + rewrite (expire_id c Hn).
-      destruct (store_get i (docs c)) as [x|] eqn:Eg.
+      destruct (store_get (patch i) (docs c)) as [x|] eqn:Eg.
       * intros H. injection H as <- <-. split; [reflexivity|].
         right. left. repeat split; eauto.
       * match goal with |- context [ensure_uniques ?a ?b] =>
@@ -70,8 +73,8 @@ Proof.
            intros H. injection H as <- <-. split; [reflexivity|].
            right. right. right. repeat split; eauto.
            cbn [docs with_docs]. rewrite store_del_app_none by exact Eg.
-           rewrite store_del_one. destruct (py_eq i i); [left; apply app_nil_r|right; reflexivity].
-    + destruct i; try discriminate Em; intros H; injection H as <- <-;
+           rewrite store_del_one. destruct (py_eq _ _); [left; apply app_nil_r|right; reflexivity].
+    + destruct (patch i); try discriminate Em; intros H; injection H as <- <-;
         (split; [reflexivity|]); left; repeat split; eauto;
         try (eexists; split; [reflexivity|]; intros Ha; try discriminate Ha; reflexivity).
   - cbn [id_modelled negb].
@@ -108,7 +111,7 @@ Proof.
   destruct Hc as [[_ [E _]]|[[_ [_ [E _]]]|[[Hm [Hg [E _]]]|[Hm [Hg [[E|E] _]]]]]];
     try (left; exact E);
     right; exists (ins_id c fs), (ins_data c fs); repeat split;
-    try assumption; apply ins_data_id.
+    try assumption; first [apply ins_id_patch|apply ins_data_id].
 Qed.
 
 (* ---------------------------------------------------------------- update loop *)
@@ -155,11 +158,11 @@ Proof.
            ++ assert (Hone : sets ((k, d) :: todo) (docs c) (docs c1)).
               { eapply sets_step; [left; reflexivity|exact Hs|constructor]. }
               destruct e;
-                try (intros H; injection H as <- <-; split; [reflexivity|exact Hone]).
-              rewrite expire_id by exact Hn1.
-              intros H. injection H as <- <-. split; [reflexivity|].
-              eapply sets_step; [left; reflexivity|exact Hs|].
-              eapply sets_step; [left; reflexivity|exact Hs0|constructor].
+                try (intros H; injection H as <- <-; split; [reflexivity|exact Hone]);
+                (rewrite expire_id by exact Hn1;
+                 intros H; injection H as <- <-; split; [reflexivity|];
+                 eapply sets_step; [left; reflexivity|exact Hs|];
+                 eapply sets_step; [left; reflexivity|exact Hs0|constructor]).
       * intros H. injection H as <- <-. split; [reflexivity|constructor].
     + intros H. apply IH in H; [|exact Hn]. destruct H as [H1 H2].
       split; [exact H1|apply Hmono; exact H2].
